@@ -31,7 +31,18 @@ import (
 	"verif/harness/hx"
 )
 
-const height = 100
+var height uint64 = 100
+
+// setHeight: the height handed to VerifyTransaction and the chain id the configuration gives it
+func setHeight(h uint64) {
+	height = h
+	chainStr = common.ChainId(h)
+	chainBig = common.GetChainId(h)
+	if chainBig == nil || chainBig.String() != chainStr {
+		fmt.Println("chain id configuration is not a decimal number:", chainStr)
+		os.Exit(2)
+	}
+}
 
 var (
 	res      *hx.Result
@@ -286,8 +297,10 @@ func addCase(class string, tx *types.Transaction, code int) {
 	if tx.Type == types.TransactionTypeETHTX && caseNo%8 != 0 {
 		gh = "\"\"" // GenHash plays no role on the Ethereum path: compared on a sample only (long preimages)
 	}
-	term := fmt.Sprintf("(%s, %s%%N, %s, %s, Obs %d%%N %s %s)", hs(chainStr), chainBig.String(), coqTx(tx), hx.CoqList(os), code, gh, ethObs(tx))
-	cs.Add(term, map[string]interface{}{"class": class, "tx": jsonTx(tx), "verdict": code})
+	cfg := common.LocalChainConfig
+	term := fmt.Sprintf("((%s, %s, %d%%N, %d%%N), %s, %s, Obs %d%%N %s %s)", hs(cfg.ChainId), hs(cfg.OriginalChainId), cfg.Proposal001Block, height, coqTx(tx), hx.CoqList(os), code, gh, ethObs(tx))
+	cs.Add(term, map[string]interface{}{"class": class, "tx": jsonTx(tx), "verdict": code, "height": height,
+		"config": map[string]interface{}{"ChainId": cfg.ChainId, "OriginalChainId": cfg.OriginalChainId, "Proposal001Block": cfg.Proposal001Block}})
 }
 
 // ---------- independent evaluation of the property's conjuncts on an accepted transaction ----------
@@ -746,6 +759,14 @@ func nativeMutants(r *hx.Rng, base *types.Transaction, sk *common.PrivateKey, th
 			setSign(t, b)
 		})
 	}
+	for bit := 512; bit < 520; bit++ { // every single-bit flip of the recovery-id byte, in every tier
+		bit := bit
+		add("sign:bitflip-v", "C07/sign-mutation:bitflip", func(t *types.Transaction) {
+			b := append([]byte{}, sb...)
+			b[bit/8] ^= 1 << uint(bit%8)
+			setSign(t, b)
+		})
+	}
 	add("sign:high-s", "C07/sign-mutation:malleated-high-s", func(t *types.Transaction) {
 		b := append([]byte{}, sb...)
 		s := new(big.Int).Sub(secpN, new(big.Int).SetBytes(b[32:64]))
@@ -1187,6 +1208,97 @@ func astTie() {
 	}
 }
 
+// ---------- the chain id changes with the height ----------
+// Mainnet-shaped configuration (OriginalChainId below Proposal001Block, ChainId from it on).  Transactions
+// made for one side of the fork are offered at heights on both sides, in both orders and repeatedly; the
+// verdict at a height may only depend on the transaction and that height.
+func forkPhase(r *hx.Rng, n int, eval func(class, key string, tx *types.Transaction, honest bool), recheck func(string)) {
+	saved := common.LocalChainConfig
+	defer func() { common.LocalChainConfig = saved; setHeight(100) }()
+	common.LocalChainConfig.ChainId, common.LocalChainConfig.OriginalChainId, common.LocalChainConfig.Proposal001Block = "2025", "8888", 1000
+	below := []uint64{0, 500, 999}
+	above := []uint64{1000, 1001, 5000}
+	pick := func(l []uint64) uint64 { return l[r.Intn(len(l))] }
+	type step struct {
+		Height  uint64 `json:"height"`
+		Verdict int    `json:"verdict"`
+	}
+	for i := 0; i < n; i++ {
+		var seqs [][]uint64
+		b, a2 := pick(below), pick(above)
+		switch i % 4 {
+		case 0:
+			seqs = [][]uint64{{b, a2}}
+		case 1:
+			seqs = [][]uint64{{a2, b}}
+		case 2:
+			seqs = [][]uint64{{b, b, a2, a2, b}}
+		default:
+			seqs = [][]uint64{{a2, b, a2, pick(below), pick(above)}}
+		}
+		for _, made := range []string{"8888", "2025"} {
+			madeBig, _ := new(big.Int).SetString(made, 10)
+			var tx *types.Transaction
+			var sk *common.PrivateKey
+			class := "fork:native-for-" + made
+			kind := (i / 4) % 3
+			switch kind {
+			case 0, 1:
+				raw := genEth(r).raw
+				_, k, _ := genKey(r)
+				tx = signEth(nil, raw, k, madeBig).wrap
+				class = "fork:eth-for-" + made
+			default:
+				setHeight(map[string]uint64{"8888": 999, "2025": 1000}[made])
+				tx, sk = genNative(r)
+				_ = sk
+			}
+			for _, seq := range seqs {
+				var hist []step
+				first := map[uint64]int{}
+				for _, h := range seq {
+					setHeight(h)
+					code, _ := runVerify(tx)
+					hist = append(hist, step{h, code})
+					want := chainStr == made
+					in := map[string]interface{}{"tx": jsonTx(tx), "made_for_chain_id": made, "sequence": hist,
+						"config": "ChainId 2025 / OriginalChainId 8888 / Proposal001Block 1000"}
+					if code == 0 && !want {
+						res.Violate("C07/fork:accepted-for-other-chain-id", fmt.Sprintf("transaction made for chain id %s accepted at height %d where the chain id is %s (%s)", made, h, chainStr, class), in)
+					}
+					if code != 0 && want {
+						res.Violate("C07/complete:fork", fmt.Sprintf("honest transaction for chain id %s rejected (verdict %d) at height %d where the chain id is %s (%s)", made, code, h, chainStr, class), in)
+					}
+					if f, ok := first[h]; ok && f != code {
+						res.Violate("C07/pure:verdict-depends-on-history", fmt.Sprintf("the same transaction got verdicts %d and %d at height %d within one sequence (%s)", f, code, h, class), in)
+					} else if !ok {
+						first[h] = code
+					}
+					// the full evaluation (conjuncts, twice in a row, model case) at this height
+					eval(class, map[bool]string{true: "C07/complete:fork", false: "C07/fork:accepted-for-other-chain-id"}[want], tx, want)
+				}
+			}
+			// declared chain id rewritten to the other side's, offered on the other side after the original passed
+			other := map[string]string{"8888": "2025", "2025": "8888"}[made]
+			setHeight(map[string]uint64{"8888": 1000, "2025": 999}[made])
+			t2 := clone(tx)
+			t2.ChainId = other
+			eval(class+"-redeclared", "C07/fork:accepted-for-other-chain-id", t2, false)
+		}
+		// Homestead payloads carry no chain id: accepted on both sides (known finding), but purely so
+		if i%5 == 0 {
+			_, k, _ := genKey(r)
+			hb := signEth(nil, genEth(r).raw, k, nil)
+			for _, h := range []uint64{pick(below), pick(above), pick(below)} {
+				setHeight(h)
+				eval("fork:eth-homestead", "C07/eth-eip155:unprotected-v27-28", hb.wrap, false)
+			}
+		}
+		recheck("after the fork sequences")
+	}
+	res.Note(fmt.Sprintf("fork phase: %d rounds on ChainId 2025 / OriginalChainId 8888 / Proposal001Block 1000, heights %v and %v", n, below, above))
+}
+
 // ---------- evaluation ----------
 var classSeen = map[string]int{}
 var caseNo int
@@ -1210,15 +1322,11 @@ func main() {
 		fmt.Println("no transaction pool")
 		os.Exit(2)
 	}
-	chainStr = common.ChainId(height)
-	chainBig = common.GetChainId(height)
-	if chainBig == nil || chainBig.String() != chainStr {
-		fmt.Println("chain id configuration is not a decimal number:", chainStr)
-		os.Exit(2)
-	}
+	common.Genesis = nil
+	setHeight(height)
 	astTie()
 	r := hx.NewRng(a.Seed)
-	cs = hx.NewCases(a.Out, "From Coq Require Import ZArith.\nFrom V.C07 Require Import Model Harness.", "fld * N * tx * list oent * obs", "check", 150)
+	cs = hx.NewCases(a.Out, "From Coq Require Import ZArith.\nFrom V.C07 Require Import Model Harness.", "(fld * fld * N * N) * tx * list oent * obs", "check", 150)
 	thorough := a.Tier == "thorough"
 	quota := 10
 	if thorough {
@@ -1232,8 +1340,37 @@ func main() {
 		}
 		return class + "|" + string(tx.Hash.Bytes()) + "|" + sg + "|" + tx.Source + "|" + tx.Target + "|" + tx.Data + "|" + tx.ExtraData + "|" + tx.ChainId + "|" + tx.Time + fmt.Sprint(tx.Nonce, tx.Type)
 	}
+	// verification must be a pure function of (transaction, height): every transaction is verified twice in
+	// a row, and a sample is verified again after other transactions (same hash, other content) went through
+	type seen struct {
+		class string
+		tx    *types.Transaction
+		h     uint64
+		code  int
+	}
+	var ring []seen
+	recheck := func(when string) {
+		keep := height
+		for _, e := range ring {
+			setHeight(e.h)
+			if c, _ := runVerify(e.tx); c != e.code {
+				res.Violate("C07/pure:verdict-depends-on-history", fmt.Sprintf("the same transaction at the same height got verdict %d first and %d when verified again %s (class %s)", e.code, c, when, e.class),
+					map[string]interface{}{"tx": jsonTx(e.tx), "height": e.h, "first": e.code, "again": c})
+			}
+			res.Count("reverify/"+when, "", false)
+		}
+		ring = ring[:0]
+		setHeight(keep)
+	}
 	eval := func(class, key string, tx *types.Transaction, honest bool) {
 		code, pmsg := runVerify(tx)
+		if c2, _ := runVerify(tx); c2 != code {
+			res.Violate("C07/pure:verdict-depends-on-history", fmt.Sprintf("the same transaction verified twice in a row at height %d got verdicts %d and %d (class %s)", height, code, c2, class),
+				map[string]interface{}{"tx": jsonTx(tx), "height": height, "first": code, "again": c2})
+		}
+		if honest || r.Intn(6) == 0 {
+			ring = append(ring, seen{class, clone(tx), height, code})
+		}
 		cl := class
 		switch {
 		case code == 0:
@@ -1292,6 +1429,7 @@ func main() {
 		t2.Data, t2.Nonce = genString(r), genNonce(r)
 		signNative(t2, sk)
 		eval("honest:native-resigned", "C07/complete:native", t2, true)
+		recheck("after its mutants")
 		for _, t := range shiftMutants(base) {
 			code, _ := runVerify(t)
 			shiftTotal++
@@ -1313,6 +1451,7 @@ func main() {
 		for _, m := range ethMutants(r, b, thorough && i < 3) {
 			eval(m.class, m.key, m.tx, false)
 		}
+		recheck("after its mutants")
 	}
 	// fixed witness of the confirmed defect (also the witness of C07_eth_unprotected_refuted in Props.v)
 	{
@@ -1337,7 +1476,9 @@ func main() {
 		}
 	}
 	res.Note(fmt.Sprintf("two-field boundary shifts (same preimage, same hash and signature, different declared fields; outside the property's single-field quantifier): %d of %d accepted", shiftAccepted, shiftTotal))
-	res.Note("chain id " + chainStr + " at height " + strconv.Itoa(height))
+	res.Note("chain id " + chainStr + " at height " + strconv.FormatUint(height, 10))
+	recheck("after other transactions") // flush before the configuration changes
+	forkPhase(r, a.N/3+6, eval, recheck)
 	cs.Close()
 	res.ModelCases = cs.Total()
 	res.Write(a.Out)
